@@ -9,9 +9,17 @@ ops  := bounds var constrain k s₁…s_k  k mn…  k mx…          → ok lo h
         slice arr pts ph pw offs cval                          → ok S shape D data | err value
         samp var order mode(c|n) arr pts ph pw offs cval       → ok S shape D data | err value
         set arr(patches) arr(pixels) pts offr offc oi          → ok S shape D data | err value|index
+                                                                 (`int()` placement; `setv var …` chooses it)
+        pcrop var constrain zero arr  n (k x…)ⁿ  boundary  n (k x…)ⁿ   crop_to_pointcloud / crop_to_landmarks
+        pprop var constrain zero arr  n (k x…)ⁿ  proportion minimum  n (k x…)ⁿ   crop_to_*_proportion
+        tmask var constrain zero arr arr(mask) boundary  n (k x…)ⁿ   crop_to_true_mask
+        api var order mode arr pts ph pw offs cval             Image.extract_patches (dispatch in the model)
+        lms arr pts ph pw offs                                 extract_patches_around_landmarks
+        list var order mode arr pts ph pw offs cval            as_single_array=False → ok n ; S shape D data ; …
+        setapi var pat arr(pixels) pts off(N | r c) oi(N | k)  Image.set_patches; pat := A arr | L n arrⁿ
 -/
 import MenpoModel.Core.Codec
-import MenpoModel.Core.C13Crop
+import MenpoModel.Core.C13Api
 
 namespace MenpoModel.Drive.C13
 open MenpoModel.Codec MenpoModel.C13
@@ -38,6 +46,7 @@ def fmtErr : Err → String
   | .boundary => "err boundary"
   | .value => "err value"
   | .index => "err index"
+  | .zerodiv => "err zerodiv"
 
 def fmtArr (a : NDArr Rat) : String :=
   "S " ++ fmtNats a.shape ++ " D " ++ fmtRats a.data
@@ -45,6 +54,26 @@ def fmtArr (a : NDArr Rat) : String :=
 def fmtRes : Except Err (NDArr Rat) → String
   | .ok a => "ok " ++ fmtArr a
   | .error e => fmtErr e
+
+def fmtCrop : Except Err (NDArr Rat × List (List Rat)) → String
+  | .error e => fmtErr e
+  | .ok (out, lms) => "ok " ++ fmtArr out ++ " L " ++ fmtRats lms.flatten
+
+def pMode : P Mode := do
+  let t ← tok
+  if t == "n" then pure .nearest else if t == "c" then pure .constant else failure
+
+def pOpt {α} (p : P α) : P (Option α) := fun s => match s with
+  | "N" :: rest => some (none, rest)
+  | _ => (do let x ← p; pure (some x) : P (Option α)) s
+
+def pPatchArg : P (PatchArg Rat) := do
+  let t ← tok
+  if t == "A" then do let a ← pArr; pure (.single a)
+  else if t == "L" then do let l ← pList pArr; pure (.list l)
+  else failure
+
+def toBoolArr (a : NDArr Rat) : NDArr Bool := ⟨a.shape, a.data.map fun x => decide (x ≠ 0)⟩
 
 def step (toks : List String) : String :=
   match toks with
@@ -88,7 +117,68 @@ def step (toks : List String) : String :=
       let p ← pArr; let a ← pArr; let cs ← pList pPt; let r ← pInt; let c ← pInt; let oi ← pNat
       pure (p, a, cs, r, c, oi)) rest with
     | none => "bad-op"
-    | some (p, a, cs, r, c, oi) => fmtRes (setPatches p a cs (r, c) oi 0)
+    | some (p, a, cs, r, c, oi) => fmtRes (setPatches .coded p a cs (r, c) oi 0)
+  | "setv" :: rest =>
+    match runP (do
+      let v ← pVar; let p ← pArr; let a ← pArr; let cs ← pList pPt; let r ← pInt; let c ← pInt; let oi ← pNat
+      pure (v, p, a, cs, r, c, oi)) rest with
+    | none => "bad-op"
+    | some (v, p, a, cs, r, c, oi) => fmtRes (setPatches v p a cs (r, c) oi 0)
+  | "pcrop" :: rest =>
+    match runP (do
+      let v ← pVar; let c ← pBool; let z ← pRat; let a ← pArr; let pts ← pList (pList pRat); let b ← pRat
+      let l ← pList (pList pRat)
+      pure (v, c, z, a, pts, b, l)) rest with
+    | none => "bad-op"
+    | some (v, c, z, a, pts, b, l) => fmtCrop (cropToPointcloud v a pts b c z l)
+  | "pprop" :: rest =>
+    match runP (do
+      let v ← pVar; let c ← pBool; let z ← pRat; let a ← pArr; let pts ← pList (pList pRat); let pr ← pRat
+      let mi ← pBool; let l ← pList (pList pRat)
+      pure (v, c, z, a, pts, pr, mi, l)) rest with
+    | none => "bad-op"
+    | some (v, c, z, a, pts, pr, mi, l) =>
+      "B " ++ fmtRat (proportionBoundary pts pr mi) ++ " " ++ fmtCrop (cropToPointcloudProportion v a pts pr mi c z l)
+  | "tmask" :: rest =>
+    match runP (do
+      let v ← pVar; let c ← pBool; let z ← pRat; let a ← pArr; let m ← pArr; let b ← pInt
+      let l ← pList (pList pRat)
+      pure (v, c, z, a, m, b, l)) rest with
+    | none => "bad-op"
+    | some (v, c, z, a, m, b, l) => fmtCrop (cropToTrueMask v a (toBoolArr m) b c z l)
+  | "api" :: rest =>
+    match runP (do
+      let v ← pVar; let order ← pNat; let m ← pMode
+      let a ← pArr; let cs ← pList pPt; let ph ← pNat; let pw ← pNat; let o ← pOffs; let cv ← pRat
+      pure (v, order, m, a, cs, ph, pw, o, cv)) rest with
+    | none => "bad-op"
+    | some (v, order, m, a, cs, ph, pw, o, cv) =>
+      fmtRes (extractPatches v (ratSampler a cv) a cs ph pw o order m cv)
+  | "lms" :: rest =>
+    match runP (do
+      let a ← pArr; let cs ← pList pPt; let ph ← pNat; let pw ← pNat; let o ← pOffs
+      pure (a, cs, ph, pw, o)) rest with
+    | none => "bad-op"
+    | some (a, cs, ph, pw, o) => fmtRes (extractAroundLandmarks a cs ph pw o 0)
+  | "list" :: rest =>
+    match runP (do
+      let v ← pVar; let order ← pNat; let m ← pMode
+      let a ← pArr; let cs ← pList pPt; let ph ← pNat; let pw ← pNat; let o ← pOffs; let cv ← pRat
+      pure (v, order, m, a, cs, ph, pw, o, cv)) rest with
+    | none => "bad-op"
+    | some (v, order, m, a, cs, ph, pw, o, cv) =>
+      match extractPatches v (ratSampler a cv) a cs ph pw o order m cv with
+      | .error e => fmtErr e
+      | .ok out =>
+        let l := toPatchList out cv
+        s!"ok {l.length} ; " ++ " ; ".intercalate (l.map fmtArr)
+  | "setapi" :: rest =>
+    match runP (do
+      let v ← pVar; let p ← pPatchArg; let a ← pArr; let cs ← pList pPt
+      let off ← pOpt (do let r ← pInt; let c ← pInt; pure (r, c)); let oi ← pOpt pNat
+      pure (v, p, a, cs, off, oi)) rest with
+    | none => "bad-op"
+    | some (v, p, a, cs, off, oi) => fmtRes (setPatchesApi v p a cs off oi 0)
   | _ => "bad-op"
 
 end MenpoModel.Drive.C13
